@@ -24,6 +24,7 @@ RULE = (
     "begins with 1-5 bytes that no block covers (blocks that do not start at offset 0 of their interval) with one or "
     "two raw-byte requests, judged by a direct splice of the bytes; plus data intervals whose blocks overlap (nested "
     "and staggered views) with one insertion or deletion, judged the same way"
+    "; every recorded iteration of the _apply_modifications loop (block handed over, offset passed, state at the end of the iteration) against IR.applyMods, with the premises of loop_is_listing (IdsBelow, new patch blocks) evaluated on the recorded state; ARM64 and MIPS32 modules with an aligned second block and a patch in the first, judged byte for byte (whole nops, exactly the padding the alignment demands); modules that lack aux-data tables altogether"
 )
 ASSUMPTIONS = [
     "x86-64 ELF only and one code section in the generated modules (the byte bookkeeping is ISA independent; the nop used for padding is the only ISA-specific byte, taken from ABI.nop())",
